@@ -454,7 +454,7 @@ pub fn write_cmd(ctx: &Context, cmd: &SmtCommand) -> Result<String, String> {
     })
 }
 
-fn dump_sym_decl(ctx: &Context, s: ExprRef) -> String {
+pub fn dump_sym_decl(ctx: &Context, s: ExprRef) -> String {
     let text = match write_cmd(ctx, &SmtCommand::DeclareConst(s)) {
         Ok(t) => quote(&t),
         Err(_) => "\"<panic>\"".to_string(),
@@ -524,17 +524,17 @@ pub fn parse_env(ctx: &mut Context, e: &Sexp) -> Env {
 
 // ------------------------------------------------------------------------------------------ solver cross-check (thorough tier)
 
-fn own_quote(n: &str) -> Option<String> {
+pub fn own_quote(n: &str) -> Option<String> {
     if n.contains('|') || n.contains('\\') || n.chars().any(|c| (c as u32) < 32 && !matches!(c, '\t' | '\n' | '\r') || c as u32 == 127) {
         None
     } else {
         Some(format!("|{n}|"))
     }
 }
-fn own_elem_sort(w: WidthInt) -> String {
+pub fn own_elem_sort(w: WidthInt) -> String {
     if w == 1 { "Bool".into() } else { format!("(_ BitVec {w})") }
 }
-fn own_elem_value(v: &BitVecValue) -> String {
+pub fn own_elem_value(v: &BitVecValue) -> String {
     if v.width() == 1 { if v.is_true() { "true".into() } else { "false".into() } } else { format!("#b{}", v.to_bit_str()) }
 }
 
@@ -637,7 +637,7 @@ impl SolverBatch {
 
 // ------------------------------------------------------------------------------------------ cases
 
-enum CmdCase {
+pub enum CmdCase {
     Assert(ExprRef),
     Declare(ExprRef),
     DeclareNonSym(ExprRef),
@@ -657,7 +657,7 @@ enum CmdCase {
 const OPTION_KEYS: &[&str] = &["produce-models", "random-seed", "smt-lib-version", "source", "status", "incremental", "produce-unsat-assumptions", "k_1"];
 const OPTION_VALUES: &[&str] = &["true", "false", "1", "42", "2.6", "sat", "unsat", "a b", "QF_BV", "|x|", "", "patronus", "\"s\""];
 
-fn logic_name(l: &Logic) -> &'static str {
+pub fn logic_name(l: &Logic) -> &'static str {
     match l {
         Logic::All => "ALL",
         Logic::QfAufbv => "QF_AUFBV",
@@ -666,7 +666,7 @@ fn logic_name(l: &Logic) -> &'static str {
     }
 }
 
-fn gen_cmd(g: &mut Gen, stats: &mut Stats) -> CmdCase {
+pub fn gen_cmd(g: &mut Gen, stats: &mut Stats) -> CmdCase {
     let depth = g.rng.below(3) as u32;
     let k = g.rng.below(20);
     match k {
@@ -739,7 +739,7 @@ fn gen_cmd(g: &mut Gen, stats: &mut Stats) -> CmdCase {
     }
 }
 
-fn cmd_exprs(c: &CmdCase) -> Vec<ExprRef> {
+pub fn cmd_exprs(c: &CmdCase) -> Vec<ExprRef> {
     match c {
         CmdCase::Assert(e) | CmdCase::Declare(e) | CmdCase::DeclareNonSym(e) | CmdCase::GetValue(e) => vec![*e],
         CmdCase::Define(s, e) => vec![*s, *e],
@@ -748,7 +748,7 @@ fn cmd_exprs(c: &CmdCase) -> Vec<ExprRef> {
     }
 }
 
-fn cmd_to_impl(c: &CmdCase) -> SmtCommand {
+pub fn cmd_to_impl(c: &CmdCase) -> SmtCommand {
     match c {
         CmdCase::Assert(e) => SmtCommand::Assert(*e),
         CmdCase::Declare(e) | CmdCase::DeclareNonSym(e) => SmtCommand::DeclareConst(*e),
@@ -766,7 +766,7 @@ fn cmd_to_impl(c: &CmdCase) -> SmtCommand {
     }
 }
 
-fn dump_cmd(ctx: &Context, c: &CmdCase) -> (String, &'static str) {
+pub fn dump_cmd(ctx: &Context, c: &CmdCase) -> (String, &'static str) {
     let d = |e: &ExprRef| dump_expr(ctx, *e);
     match c {
         CmdCase::Assert(e) => (format!("(assert {})", d(e)), "assert"),
@@ -786,7 +786,7 @@ fn dump_cmd(ctx: &Context, c: &CmdCase) -> (String, &'static str) {
     }
 }
 
-fn parse_cmd(ctx: &mut Context, c: &Sexp) -> CmdCase {
+pub fn parse_cmd(ctx: &mut Context, c: &Sexp) -> CmdCase {
     let l = c.list();
     let mut e = |i: usize, ctx: &mut Context| build_expr(ctx, &l[i]);
     match l[0].atom() {
